@@ -32,6 +32,7 @@ Json gen(sim::Rng& rng, int tier)
         int kind = static_cast<int>(rng.below(10));
         q["kind"] = kind < 3 ? "size" : kind < 4 ? "async" : kind < 5 ? "file" : kind < 8 ? "stream" : "astream";
         if (rng.chance(0.12)) q["kind"] = "hints";
+        else if (rng.chance(0.08)) q["kind"] = "astreamp";
         q["tag"] = static_cast<long long>(tag += 10);
         q["size"] = snd + rcv + static_cast<long>(1000 + rng.below(tier ? 150000 : 60000));
         q["chunks"] = static_cast<int>(rng.range(2, 6));
@@ -60,6 +61,25 @@ Json gen(sim::Rng& rng, int tier)
         c["latency_us"] = static_cast<int>(5 + rng.below(200));
         nbs.push(c);
     }
+    // now and then a crowd of neighbours: 40..80 connections of the same worker send their one request within a few
+    // milliseconds of each other while the stalled connection is parked - more descriptors ready in one poll than any
+    // per-round bound somebody might have picked
+    if (rng.chance(0.05)) {
+        nbs = Json::array();
+        int n = static_cast<int>(40 + rng.below(41));
+        int at = static_cast<int>(rng.below(150000));
+        int gap = static_cast<int>(20000 + rng.below(3000)), lat = static_cast<int>(5 + rng.below(100));
+        for (int i = 0; i < n; ++i) {
+            Json c = Json::object();
+            c["start_us"] = at + static_cast<int>(rng.below(2000)); // connected one after the other ...
+            Json gaps = Json::array();
+            gaps.push(gap + 2000 - static_cast<int>(c.num("start_us") - at)); // ... and sending at the same instant
+            c["gaps_us"] = gaps;
+            c["latency_us"] = lat;
+            nbs.push(c);
+        }
+        p["crowd"] = true;
+    }
     p["neighbours"] = nbs;
     gen_sched(rng, p, 5000, false);
     return p;
@@ -84,7 +104,7 @@ void run(const Json& plan)
             w.make_file(std::to_string(tag), size);
             wt.target = "/file/" + std::to_string(tag);
             wt.body = actors::pattern(tag, size);
-        } else if (wt.kind == "stream" || wt.kind == "astream" || wt.kind == "hints") {
+        } else if (wt.kind == "stream" || wt.kind == "astream" || wt.kind == "hints" || wt.kind == "astreamp") {
             int ch = std::max(1, std::min(8, static_cast<int>(q.num("chunks", 2))));
             size_t n = std::max<size_t>(1, size / static_cast<size_t>(ch));
             wt.target = "/" + wt.kind + "/" + std::to_string(ch) + "/" + std::to_string(n) + "/" + std::to_string(tag);
@@ -150,6 +170,7 @@ void run(const Json& plan)
     a->from_server.latency_ns = a->to_server.latency_ns = std::max<i64>(1, plan.num("latency_us", 50)) * 1000;
     a->start(0);
 
+    if (plan.flag("crowd")) r.probe("neighbour-crowd");
     const Json& jn = plan.get("neighbours");
     std::vector<std::shared_ptr<actors::Client>> nbs;
     std::vector<size_t> nb_requests;
